@@ -353,9 +353,15 @@ def _main(pm, args, tier, seed, prop, t0, scratch):
             return 1
         o, hits, _ = pm.run_impl(case)
         log("case: %s\nimpl: %s" % (case, o))
+        new = []
         for h in hits:
             log("ORACLE: %s" % json.dumps(h, default=str))
-        if hits:
+            k = match_known(prop, h, known)
+            if k is not None:
+                log("KNOWN-FINDING: property=%s %s [%s]" % (prop, k.get("what"), k.get("id")))
+            else:
+                new.append(h)
+        if new:
             log("VIOLATION property=%s replay=%s" % (prop, args.replay))
             return 1
         return 0
